@@ -83,6 +83,18 @@ func c03HasHugeCoefficient(evs []ev.Event) bool {
 	return false
 }
 
+// c03HasExtremeBigFloat: a big float whose binary exponent is beyond +-20000 (region of the open finding S75).
+func c03HasExtremeBigFloat(evs []ev.Event) bool {
+	for i := range evs {
+		if evs[i].K == ev.BigFloat && evs[i].BF != nil {
+			if e := evs[i].BF.MantExp(nil); e > 20000 || e < -20000 {
+				return true
+			}
+		}
+	}
+	return false
+}
+
 func isAlpha(c byte) bool { return (c >= 'a' && c <= 'z') || (c >= 'A' && c <= 'Z') }
 func isDigit(c byte) bool { return c >= '0' && c <= '9' }
 
@@ -280,6 +292,10 @@ func init() {
 			ctx.Label("first-decoder-accepts")
 			if key := "S71-uleb128-coefficient-over-448-bits"; findingOpen(key) && !ctx.Replaying && c03HasHugeCoefficient(e1) {
 				ctx.Stats.Exclude(key)
+				return nil
+			}
+			if findingOpen(s75) && !ctx.Replaying && c03HasExtremeBigFloat(e1) {
+				ctx.Stats.Exclude(s75)
 				return nil
 			}
 			ctx.NonTrivial(len(e1) >= 6)
